@@ -1,11 +1,11 @@
 package main
 
 import (
-	"sort"
 	"context"
 	"fmt"
 	"math"
 	"math/big"
+	"sort"
 )
 
 // C01: converged scores vs an exact rational fixed point; C02: distribution for every budget.
@@ -148,6 +148,14 @@ func genComputeCases(r *Rng, tier string, forC02 bool) []*Case {
 		in := ComputeIn{C: cc, P: pc, A: JFloat(a), E: JFloat(e), Fuel: 1200, WatchdogMs: 30000}
 		if r.Chance(50) {
 			t0 := Vec{Dim: n, Ents: sortedSpan(r, n, r.Pick(40, 80, 100), 0, r.Pos)}
+			if !forC02 && r.Chance(25) {
+				// a start vector with a short support: empty (all zero) or confined to a low-index prefix, so
+				// that the iterates gain entries beyond its highest index
+				t0.Ents = nil
+				if n > 1 && r.Bool() {
+					t0.Ents = sortedSpan(r, 1+r.Intn((n+1)/2), 100, 0, r.Pos)
+				}
+			}
 			if forC02 || r.Chance(50) {
 				t0 = canonVec(t0) // C02 needs a canonical start vector; C01 holds for every start vector
 			}
